@@ -25,8 +25,9 @@ func univFor(kind string) univ {
 	} else {
 		// fs backends: conflict-free key domain (no key is a path-prefix of another)
 		u.keys = []string{"a/b", "a/c", "d", "e/f/g", "a_b"} // a_b: distinct from a/b however a backend flattens names
-		// ... but a key below an object (d/x, a/b/c), or one that is a directory of other keys (a, e/f), can be
-		// asked for: it was never written
+		// ... and keys below those (d/x, a/b/c) or above them (a, e/f): read, deleted and copied from like any
+		// key, and every fifth upload goes to one of them — the model (Model/FsPut.v) says which of these a
+		// directory tree can take at that moment and which are refused with InvalidArgument
 		u.rkeys = []string{"d/x", "a/b/c", "a", "e/f", "d/x/y"}
 	}
 	return u
@@ -39,6 +40,9 @@ func c02RandomOp(s *Sess, u univ, rng *Rng) {
 	rk := k // for operations that do not write
 	if len(u.rkeys) > 0 && rng.Intn(4) == 0 {
 		rk = u.rkeys[rng.Intn(len(u.rkeys))]
+	}
+	if len(u.rkeys) > 0 && rng.Intn(5) == 0 {
+		k = u.rkeys[rng.Intn(len(u.rkeys))] // an upload / copy destination that may be in the way of, or below, a stored key
 	}
 	single := isSingle(s.kind)
 	switch w := rng.Intn(100); {
